@@ -9,10 +9,24 @@ import (
 //doc:before  fmt.Sprint(x)
 //doc:after   x.String()
 func redundantSprint(m dsl.Matcher) {
+	// Unary and binary operators bind weaker than a selector or an index:
+	// such operands need parenthesis in the replacement.
+	m.Match(`fmt.Sprint($x)`, `fmt.Sprintf("%s", $x)`, `fmt.Sprintf("%v", $x)`).
+		Where(!m["x"].Type.Is(`reflect.Value`) && m["x"].Type.Implements(`fmt.Stringer`) &&
+			(m["x"].Node.Is(`BinaryExpr`) || m["x"].Node.Is(`UnaryExpr`) || m["x"].Node.Is(`StarExpr`))).
+		Suggest(`($x).String()`).
+		Report(`use ($x).String() instead`)
+
 	m.Match(`fmt.Sprint($x)`, `fmt.Sprintf("%s", $x)`, `fmt.Sprintf("%v", $x)`).
 		Where(!m["x"].Type.Is(`reflect.Value`) && m["x"].Type.Implements(`fmt.Stringer`)).
 		Suggest(`$x.String()`).
 		Report(`use $x.String() instead`)
+
+	m.Match(`fmt.Sprint($x)`, `fmt.Sprintf("%s", $x)`, `fmt.Sprintf("%v", $x)`).
+		Where(m["x"].Type.Is(`string`) &&
+			(m["x"].Node.Is(`BinaryExpr`) || m["x"].Node.Is(`UnaryExpr`) || m["x"].Node.Is(`StarExpr`))).
+		Suggest(`($x)`).
+		Report(`$x is already string`)
 
 	m.Match(`fmt.Sprint($x)`, `fmt.Sprintf("%s", $x)`, `fmt.Sprintf("%v", $x)`).
 		Where(m["x"].Type.Is(`string`)).
